@@ -142,7 +142,8 @@ class PlanJoinTablesQuery:
         if is_cte:
             # reference to a common table expression: is not in a database
             integration = None
-        elif len(table.parts) > 0:
+        elif len(table.parts) > 1:
+            # a name of one part is a table (or model) of the default namespace, also when it is spelled like a database
             if table.parts[0].lower() in self.planner.databases:
                 integration = table.parts.pop(0).lower()
             else:
